@@ -2,6 +2,7 @@
 from props import cells
 
 RULE = ('the 10 arithmetic commands, 1-5 inputs, every mix of int64/float64 inputs, int and fractional weights (zero-sum included), zero divisors, mismatched shapes, wrong weight counts, empty input lists; results and error classes compared with the exact definitions, with a random input order, and with the Coq model. non-trivial = distinct case with >= 2 differing inputs, a mixed dtype assignment or an error outcome')
+RULE += (' Every stream also has a stratified part: each command once per unusual element type (uint64 as the NetCDF reader returns for Positive Integer, uint8, int16), weighted commands with a weight of exactly 0 next to a cell missing only in that input, nine to twelve input layers, the same result mentioned twice, inputs re-laid in memory (Fortran order, transposed / reversed / strided views), B written before A, a Metadata argument on every third run.')
 TRUSTED = ["exact reference evaluator in drivers/cells_common.py (written from the property statements and the user documentation)",
            "numpy.ma.std enters the model as the oracle sigma (checked against the exact variance to 2^-20 relative)"]
 ASSUMPTIONS = ["exact rational arithmetic; IEEE rounding is absorbed by the tolerance 2^-36 relative; nan/inf results are not printable into Coq and are judged by the oracle only"]
